@@ -14,6 +14,8 @@ CONSTANTS
     MaxFaults = 1
     MaxCrashes = 0
     MaxReopens = 1
+    MaxFmtFail = 0
+    FmtFails = {}
     Ticks = {"same", "next"}
     RetryTicks = {"same"}
     Phantoms = {0}
